@@ -66,14 +66,20 @@ class PyFileSearcher(AbstractSearcher):
 
             try:
                 fp = open(f, 'rb')
-                pyData = fp.read(8)
+                pyData = fp.read(12)
                 fp.close()
 
             except IOError:
                 raise error.PySmiSearcherError('failure opening compiled file %s: %s' % (f, sys.exc_info()[1]),
                                                searcher=self)
-            if pyData[:4] == PY_MAGIC_NUMBER:
+            if pyData[:4] == PY_MAGIC_NUMBER and len(pyData) == 12:
                 pyData = pyData[4:]
+                if sys.version_info[:2] >= (3, 7):
+                    # PEP 552: magic, flags, then mtime (or source hash)
+                    if struct.unpack('<L', pyData[:4])[0] & 1:
+                        debug.logger & debug.flagSearcher and debug.logger('%s is hash-based, no mtime' % f)
+                        continue
+                    pyData = pyData[4:]
                 pyTime = struct.unpack('<L', pyData[:4])[0]
                 debug.logger & debug.flagSearcher and debug.logger(
                     'found %s, mtime %s' % (f, time.strftime("%a, %d %b %Y %H:%M:%S GMT", time.gmtime(pyTime))))
